@@ -652,6 +652,8 @@ func genC07(r *Rng, e *Emitter, n int) {
 			})
 			e.tally("geom/" + t.kind + "/" + fmt.Sprint(int(t.layout)))
 			e.emit("C07.geom", in, "(m ((text "+hexStr(string(text))+") (ed "+ed+")) "+out+")")
+			// the returned document is kept: a later Marshal may not change it
+			e.watch("C07.geom", in, func() string { return "(m ((text " + hexStr(string(text)) + ") (ed " + ed + ")) " + out + ")" })
 		case 3, 4:
 			fi := r.gjFeature()
 			e.pending("C07.feat", fi.sx)
@@ -670,6 +672,7 @@ func genC07(r *Rng, e *Emitter, n int) {
 			})
 			e.tally("feat")
 			e.emit("C07.feat", fi.sx, "(m ((text "+hexStr(string(text))+")) "+out+")")
+			e.watch("C07.feat", fi.sx, func() string { return "(m ((text " + hexStr(string(text)) + ")) " + out + ")" })
 		case 5:
 			fc := &geojson.FeatureCollection{BBox: r.gjBounds()}
 			var parts []string
@@ -700,6 +703,7 @@ func genC07(r *Rng, e *Emitter, n int) {
 			})
 			e.tally("fc")
 			e.emit("C07.fc", in, "(m ((text "+hexStr(string(text))+")) "+out+")")
+			e.watch("C07.fc", in, func() string { return "(m ((text " + hexStr(string(text)) + ")) " + out + ")" })
 		default:
 			// decoder input: a valid document of some kind, mutated
 			kind := []string{"geom", "geom", "feat", "fc"}[r.Intn(4)]
